@@ -4,4 +4,5 @@ From Coq Require Import ExtrOcamlBasic.
 From RV Require Import Api.
 Extraction "model.ml"
   api_components api_push api_render api_parent api_file_name api_extension api_path_eqb
-  api_path_starts_with api_is_absolute api_clean api_go_clean api_clean_spec api_normal_form_b.
+  api_path_starts_with api_is_absolute api_clean api_go_clean api_clean_spec api_normal_form_b
+  api_relative api_relative_spec api_relative_check.
